@@ -46,6 +46,11 @@ def units(tier):
     for (w, s) in cfgs:
         for part in spaces.shard(sizes + sizes3, 4):
             out.append({'fam': 'grouped', 'w': w, 's': s, 'sizes': part})
+    # large windows/strides (beyond the small-int range of the interpreter) and deep grouped runs over the whole grid
+    for (w, s) in [(260, 130), (257, 256), (300, 300), (257, 64), (258, 300)]:
+        out.append({'fam': 'large', 'w': w, 's': s})
+    for w in range(1, 7):
+        out.append({'fam': 'deepgroup', 'w': w})
     nest = [(2, 1), (2, 2), (3, 2), (1, 2), (3, 1)]
     for (w1, s1) in nest:
         for (w2, s2) in nest:
@@ -71,6 +76,14 @@ def cases(unit):
         for sizes in unit['sizes']:
             for order in spaces.interleavings(sizes):
                 yield {'fam': 'grouped', 'w': unit['w'], 's': unit['s'], 'order': order}
+    elif fam == 'large':
+        for n in (unit['w'] - 1, unit['w'], unit['w'] + 1, 2 * unit['w'] + 3):
+            yield {'fam': 'top', 'w': unit['w'], 's': unit['s'], 'n': n}
+    elif fam == 'deepgroup':
+        for s in range(1, 7):
+            n = 3 * (unit['w'] + s) + 2
+            # three keys, strictly alternating, long enough to wrap each key's slot ring three times
+            yield {'fam': 'grouped', 'w': unit['w'], 's': s, 'order': [i % 3 for i in range(3 * n)]}
     elif fam == 'rollroll':
         for n in range(0, 13):
             yield dict(unit, n=n)
@@ -127,7 +140,8 @@ def _close_order_differs(lts, log):
 
 def run_case(case, acc):
     fam = case['fam']
-    ctx = opspecs.Ctx(True)
+    big = case.get('w', 0) > 20 or len(case.get('order', [])) > 40
+    ctx = opspecs.Ctx(not big)          # store snapshots at every event are only affordable for the small cases
     out = []
     if fam == 'top':
         w, s, n = case['w'], case['s'], case['n']
@@ -152,7 +166,7 @@ def run_case(case, acc):
             out.append(viol('top|%s' % sym, {'expected': exp, 'observed': sink.items}))
         if not out or True:
             out.extend(v for v in check_brackets(ctx.log('h'), exp, 'top') if v['signature'] not in [o['signature'] for o in out])
-        acc.states.update(ctx.states)
+        acc.states.update(ctx.states or ())
         acc.outcomes.add(fast_hash(repr(sink.items)))
         if len(exp) >= 2:
             acc.nontrivial.add(fast_hash(repr(case)))
@@ -226,7 +240,7 @@ def run_case(case, acc):
                     out.append(v)
         if len(set(order)) > 1 and order != sorted(order):
             acc.count('interleaved_keys')
-    acc.states.update(ctx.states)
+    acc.states.update(ctx.states or ())
     acc.outcomes.add(fast_hash(repr(sink.items)))
     if len(exp) >= 2:
         acc.nontrivial.add(fast_hash(repr(case)))
